@@ -7,6 +7,13 @@ import numpy as np
 import pandas as pd
 
 from harness import table_scorers as ts
+from harness.engine import REPO as _REPO
+
+
+def engine_repo():
+    return _REPO
+
+
 from harness.engine import VERIF, coq_bad_cases, coq_list
 
 INFO = {
@@ -67,7 +74,7 @@ def run(ctx):
     from skchange.costs import GaussianVarCost, L2Cost
     from skchange.anomaly_scores import L2Saving, Saving
     rng = ctx.rng
-    repo = "/repo"
+    repo = engine_repo()
 
     def ir(name):
         return py2coq.to_ir(name, repo)
